@@ -749,14 +749,20 @@ theorem sq_lt (w : Nat) (h : w < 2^32) : w * w < U64 := by
   have : w * w < 2^32 * 2^32 := Nat.mul_lt_mul'' h h
   rw [U64_val]; exact this
 
+/-- `memory_gas` is the quadratic formula clamped to `u64::MAX`, for every word count -/
+theorem memoryGas_full (w : Nat) : memoryGas w = min (Spec.Memory.memGas w) (U64 - 1) := by
+  unfold memoryGas Spec.Memory.memGas
+  generalize w * w / 512 = q
+  simp only []
+  split <;> omega
+
 theorem memoryGas_eq (w : Nat) (h : w < 2^32) : memoryGas w = Spec.Memory.memGas w := by
   have hs := sq_lt w h
-  unfold memoryGas Spec.Memory.memGas U64ops.saturatingAdd U64ops.saturatingMul
+  rw [memoryGas_full]
+  unfold Spec.Memory.memGas
   have hU := U64_val
-  have h3 : 3 * w < U64 := by omega
-  rw [if_pos h3, if_pos hs]
   generalize w * w = q at *
-  rw [if_pos (by omega)]
+  omega
 
 theorem memGas_mono {a b : Nat} (h : a ≤ b) : Spec.Memory.memGas a ≤ Spec.Memory.memGas b := by
   unfold Spec.Memory.memGas
